@@ -300,7 +300,7 @@ def case_ens_perm(kind, E, N, D):
                 return True, f"{kind} raised {type(e).__name__}: {e}"
         return False, "symmetric"
 
-    return Case(name, body, replay, time_budget=300)
+    return Case(name, body, replay, time_budget=300, split=4 if (kind == "gsl" and E * N >= 8) else 0)
 
 
 def case_sign(kind, E, N, D):
@@ -407,8 +407,8 @@ def cases(tier, seed):
         for k in kinds:
             if k != "gsl":
                 cs.append(case_ens_perm(k, 3, 2, 1))
-        cs.append(case_ens_perm("gsl", 3, 3, 1))
-        cs.append(case_ens_perm("gsl", 2, 4, 1))
+        cs.append(case_ens_perm("gsl", 3, 2, 1))
+        cs.append(case_ens_perm("gsl", 2, 3, 1))
         for k in ["minkowski2", "fourier-gauss", "msm-identity"]:
             cs.append(case_sign(k, 3, 3, 2))
         cs.append(case_weighted(3, 3, 3, "sym", "all"))
